@@ -24,3 +24,42 @@ def run_bounded(report, alpha, functions=(), scale=1.0, **kw):
     B.bounded_obligations(report, report.prop, declared_bounded(report.prop), res, functions=functions)
     report.assume(ASSUME_BOUNDED)
     return res
+
+
+def _verify_one(key):
+    import sys
+    sys.setrecursionlimit(10000)
+    from pv.engine3 import verify_function
+    from pv import smt
+    obs = verify_function(key)
+    return key, obs, dict(smt.STATS)
+
+
+def verify_keys(report, keys, standin=None, procs=8):
+    """Discharge the VCs of the functions bound to these contract keys (one process per function)."""
+    import multiprocessing as mp
+    from pv.contract import REG, load_all
+    load_all()
+    ctx = mp.get_context('fork')
+    with ctx.Pool(min(procs, max(1, len(keys)))) as pool:
+        results = pool.map(_verify_one, keys, chunksize=1)
+    stats = report.extra.setdefault('solver', dict(queries=0, z3_time=0.0, cvc5_time=0.0, cvc5_queries=0))
+    for key, obs, st in results:
+        if not obs:
+            continue
+        for o in obs:
+            if standin and o.standin is None:
+                o.standin = standin if isinstance(standin, str) else standin.get(key)
+            report.add(o)
+        for k in stats:
+            stats[k] = round(stats[k] + st.get(k, 0), 3)
+    report.assume(
+        "A-INT: integers are mathematical (Python's are)",
+        "A-REC: no RecursionError/MemoryError",
+        "A-DISPATCH: attribute/method resolution through the class table read from the live modules; field kinds "
+        "declared in contracts/a_base.py",
+        "VC generator pv/ (symbolic executor over the real ast, self-validated by must-fail mutants) and z3 5.1 / cvc5 1.0",
+        "callee contracts marked trusted (builtins, re, os, pickle) are assumed, listed per evidence file")
+    trusted = sorted(k for k, c in REG.items() if c.trusted)
+    report.extra['trusted_contracts'] = trusted
+    return results
